@@ -21,7 +21,7 @@ Definition quiet (a : action) : Prop :=
   end.
 Lemma step6_quiet q a : quiet a -> step6 q a = Some q.
 Proof.
-  intro H. destruct a as [ev|pq ans|w o|c ans|c|w|op ok|mt|id r]; try contradiction; try reflexivity.
+  intro H. destruct a as [ev|pq ans|w o|c ans|c|w|op ok|mt|id src|id r]; try contradiction; try reflexivity.
   - destruct ev as [s| | | | | |]; try contradiction; try reflexivity. destruct s; try contradiction; reflexivity.
   - destruct mt; try contradiction; reflexivity.
 Qed.
@@ -29,6 +29,12 @@ Lemma nM_quiet a : quiet a -> nM (emit a).
 Proof. intro H. apply neutralM_emit. intros q _. apply step6_quiet. exact H. Qed.
 Lemma ign_store6 : ign_store step6 Inv6. Proof. intros op ok q _. reflexivity. Qed.
 Lemma ign_clock6 : ign_clock step6 Inv6. Proof. intros c q _. reflexivity. Qed.
+
+Lemma ign_ctl6 : ign_ctl step6.
+Proof. split; intros; reflexivity. Qed.
+Ltac temit := first [apply triple_emit | apply (T_yield step6 _ _ _ ign_ctl6) | (unfold yield_state; apply (T_yield step6 _ _ _ ign_ctl6))].
+Lemma nM_yieldq ev : quiet (AEvent ev) -> nM (yield_ ev).
+Proof. intro H. apply neutralM_yield; [apply ign_ctl6|]. intros q _. apply step6_quiet. exact H. Qed.
 
 Lemma Jn {A} m0 ph (m : M A) : nM m -> T (Jp m0 ph) m (fun _ => Jp m0 ph).
 Proof. intro H. apply (H (Jp m0 ph)). intros q _. exact I. Qed.
@@ -43,7 +49,7 @@ Ltac rext := apply triple_ret; intros q Hq; (eapply Jp_ext; [| |exact Hq]; refle
 Lemma nM_report mt : (match mt with MRequestsPerCheck _ _ => False | _ => True end) -> nM (report mt).
 Proof. intro H. unfold report. apply nM_quiet. destruct mt; try contradiction; exact I. Qed.
 Lemma nM_yield_state s : (match s with CheckingForUpdates _ => False | _ => True end) -> nM (yield_state s).
-Proof. intro H. unfold yield_state. apply nM_quiet. destruct s; try contradiction; exact I. Qed.
+Proof. intro H. unfold yield_state. apply nM_yieldq. destruct s; try contradiction; exact I. Qed.
 Lemma nM_now : nM now. Proof. apply neutralM_now, ign_clock6. Qed.
 Lemma nM_st_write op : nM (st_write op). Proof. apply neutralM_st_write, ign_store6. Qed.
 Lemma nM_ctx_persist sc ps : nM (ctx_persist sc ps). Proof. apply neutralM_ctx_persist, ign_store6. Qed.
@@ -82,7 +88,7 @@ Proof.
   { destruct (m_cup m); [kn (nM_silent _ silent_fresh_nonce); rj|rj]. }
   intro uri. kna (nM_silent _ silent_pop_http) as o.
   eapply triple_bind with (R := fun _ q => cup6 q = cupb m /\ poll6 q = poll_after (cupb m) (ps_poll (m_ps m)) o /\ ph6_ q = post o).
-  { apply triple_emit. intros q Hq. eexists. split.
+  { temit. intros q Hq. eexists. split.
     - specialize (Hstep q o Hq). unfold step6 in *. cbn [w_sum] in *. exact Hstep.
     - destruct Hq as (Hc & Hp & Hph). unfold q6_with. cbn [cup6 poll6 ph6_]. rewrite Hc, Hp. auto. }
   intro.
@@ -112,7 +118,7 @@ Proof.
         - apply triple_ret. intros q Hq. split; [exact Hq|]. split; [|repeat split; reflexivity].
           subst p'. destruct (ps_poll (m_ps m)), (parse_retry_after ra); cbn in Eq; try discriminate; [apply Z.eqb_eq in Eq; subst|]; reflexivity.
         - set (PP := fun q : q6 => cup6 q = cupb m /\ poll6 q = poll_after (cupb m) (ps_poll (m_ps m)) (HResp status ra authentic bd) /\ ph6_ q = post (HResp status ra authentic bd)).
-          eapply triple_bind with (R := fun _ => PP); [apply (An PP), nM_quiet; exact I|]. intro.
+          eapply triple_bind with (R := fun _ => PP); [apply (An PP), nM_yieldq; exact I|]. intro.
           eapply triple_bind with (R := fun _ => PP); [apply (An PP), nM_ctx_persist|]. intro.
           eapply triple_bind with (R := fun _ => PP); [apply (An PP), nM_st_write|]. intro.
           apply triple_ret. intros q Hq. split; [exact Hq|]. repeat split; reflexivity. }
@@ -246,7 +252,7 @@ Proof.
         { destruct e; cbn [stop_of] in Est; try discriminate; unfold MAX_ATTEMPTS in Est;
             destruct (3 <=? attempt) eqn:E3; try discriminate; apply Z.leb_gt in E3; exact E3. }
         eapply triple_bind with (R := fun _ q => exists o, Jp m1 (Q6Att attempt (Some o) true) q /\ m_url m1 = m_url m /\ m_cfg m1 = m_cfg m).
-        { apply triple_emit. intros q (o & HJ & Hr & Hp & Hc & Hu & Hg). eexists. split.
+        { temit. intros q (o & HJ & Hr & Hp & Hc & Hu & Hg). eexists. split.
           - destruct HJ as (Hc6 & Hp6 & Hph). unfold step6. rewrite Hph, Hc6, Hp6, (Hcupb o Hc).
             pose proof (stop_spec _ _ _ attempt (ps_poll (m_ps m1)) (eq_sym Hr)) as Hs. rewrite Est in Hs.
             apply (f_equal negb) in Hs. rewrite Bool.negb_involutive in Hs. cbn [negb] in Hs.
@@ -320,7 +326,7 @@ Lemma T_perform fuel p apps m : T (Jp m Q6Out) (perform_update_check fuel p apps
 Proof.
   unfold perform_update_check.
   eapply triple_bind with (R := fun _ => Jp m (Q6Att 0 None true)).
-  { apply triple_emit. intros q (Hc & Hp & Hq). eexists. split; [unfold step6; rewrite Hq; reflexivity|].
+  { temit. intros q (Hc & Hp & Hq). eexists. split; [unfold step6; rewrite Hq; reflexivity|].
     unfold Jp, q6_with. cbn. auto. }
   intro. eapply triple_bind; [apply T_report_check_interval|]. intro m0.
   kn (nM_silent _ silent_fresh_guid).
@@ -330,13 +336,13 @@ Proof.
     destruct (sendable m0 _); exact HT. }
   intros [[m1 attempts] res].
   eapply triple_bind with (R := fun _ => Jp m1 Q6Rep).
-  { apply triple_emit. intros q (k & last & ready & (Hc & Hp & Hq) & Hrpc). cbn [fst snd] in *. eexists. split.
+  { temit. intros q (k & last & ready & (Hc & Hp & Hq) & Hrpc). cbn [fst snd] in *. eexists. split.
     - unfold step6. rewrite Hq. fold (is_ok res). rewrite Hrpc. reflexivity.
     - unfold Jp, q6_with. cbn. auto. }
   intro.
   destruct res as [e|[d|]].
   - rj.
-  - kn (nM_quiet (AEvent (EvServerResponse d)) I).
+  - kn (nM_yieldq (EvServerResponse d) I).
     destruct (filter uc_ok (d_apps d)) as [|wu0 wur] eqn:Hwu.
     + kn (nM_yield_state NoUpdateAvailable I). rj.
     + kna (nM_silent _ silent_pop_plan) as pl.
@@ -353,7 +359,7 @@ Proof.
         kna (nM_silent _ silent_pop_perform) as pa.
         match goal with |- T _ (bind (emit ?a) _) _ => kn (nM_quiet a I) end.
         kn (neutralM_iterM step6 Inv6 (fun bits => yield_ (EvProgress bits)) (pa_progress pa)
-              (fun bits => nM_quiet (AEvent (EvProgress bits)) I)).
+              (fun bits => nM_yieldq (EvProgress bits) I)).
         kna nM_now as t1.
         eapply triple_bind with (R := fun _ => Jp m2 Q6Rep).
         { match goal with |- T _ (if ?c then _ else _) _ => destruct c end; [|rj].
@@ -378,7 +384,7 @@ Proof.
            kna (nM_silent _ silent_pop_reboot_needed) as rn.
            match goal with |- T _ (bind (emit ?a) _) _ => kn (nM_quiet a I) end. rj.
         -- kn (neutralM_iterM step6 Inv6 (fun _ : unit => yield_ EvInstallerError) (repeat tt (Datatypes.S nerr))
-                 (fun _ => nM_quiet (AEvent EvInstallerError) I)).
+                 (fun _ => nM_yieldq EvInstallerError I)).
            kn (nM_yield_state InstallationError I). rj.
       * eapply triple_bind; [apply T_report_event; exact I|]. intro.
         kn (nM_yield_state InstallationDeferredByPolicy I). rj.
@@ -403,9 +409,9 @@ Proof.
         apply (Jn _ _ _ (nM_report_attempts_install _)). }
       intro. rext. }
   intros [[m2 result] rb]; cbn [fst].
-  kn (nM_quiet (AEvent (EvSchedule (m_sched m2))) I). kn (nM_quiet (AEvent (EvProtocol (m_ps m2))) I).
+  kn (nM_yieldq (EvSchedule (m_sched m2)) I). kn (nM_yieldq (EvProtocol (m_ps m2)) I).
   eapply triple_bind with (R := fun _ => Jp m2 Q6Out).
-  { apply triple_emit. intros q (Hc & Hp & Hq). eexists. split; [unfold step6; rewrite Hq; reflexivity|]. unfold Jp, q6_with. cbn. auto. }
+  { temit. intros q (Hc & Hp & Hq). eexists. split; [unfold step6; rewrite Hq; reflexivity|]. unfold Jp, q6_with. cbn. auto. }
   intro. kn (nM_persist_data m2). rj.
 Qed.
 
@@ -413,7 +419,7 @@ Qed.
 Lemma timer_out m w q : Jp m Q6Out q -> step6 q (ATimer w) = Some q.
 Proof. intros (_ & _ & Hq). unfold step6. rewrite Hq. destruct w; reflexivity. Qed.
 Lemma T_timer_out m w : T (Jp m Q6Out) (emit (ATimer w)) (fun _ => Jp m Q6Out).
-Proof. apply triple_emit. intros q Hq. exists q. split; [eapply timer_out; exact Hq|exact Hq]. Qed.
+Proof. temit. intros q Hq. exists q. split; [eapply timer_out; exact Hq|exact Hq]. Qed.
 
 Lemma T_make_wait m t : T (Jp m Q6Out) (make_wait t) (fun _ => Jp m Q6Out).
 Proof.
@@ -426,7 +432,7 @@ Lemma T_update_next m : T (Jp m Q6Out) (update_next_update_time m) (fun r => Jp 
 Proof.
   unfold update_next_update_time. kna (nM_silent _ silent_pop_next_time) as t.
   match goal with |- T _ (bind (emit ?a) _) _ => kn (nM_quiet a I) end.
-  match goal with |- T _ (bind (yield_ ?ev) _) _ => kn (nM_quiet (AEvent ev) I) end. rext.
+  match goal with |- T _ (bind (yield_ ?ev) _) _ => kn (nM_yieldq ev I) end. rext.
 Qed.
 
 Lemma T_ping m : T (Jp m Q6Out) (ping_omaha m) (fun m' => Jp m' Q6Out).
@@ -440,7 +446,7 @@ Proof.
   { kn (nM_persist_data (with_ps m1 (set_fails (m_ps m1) (sat_inc_u32 (ps_fails (m_ps m1)))))). rext. }
   destruct res as [er|[d|]]; [exact Hfail| |exact Hfail].
   kna nM_now as n.
-  match goal with |- T _ (bind (yield_ ?ev) _) _ => kn (nM_quiet (AEvent ev) I) end.
+  match goal with |- T _ (bind (yield_ ?ev) _) _ => kn (nM_yieldq ev I) end.
   match goal with |- T _ (bind (persist_data ?x) _) _ => kn (nM_persist_data x) end. rext.
 Qed.
 
@@ -450,10 +456,18 @@ Proof.
   kn (nM_quiet (APolicy (QRebootAllowed src) (PBool b)) I). rj.
 Qed.
 
+Lemma T_handle_in_reboot id sc m : T (Jp m Q6Out) (handle_in_reboot id sc) (fun _ => Jp m Q6Out).
+Proof.
+  unfold handle_in_reboot. kn (nM_quiet (AReply id AlreadyRunning) I).
+  destruct sc; [apply T_ask_reboot|rj].
+Qed.
+
 Lemma T_reboot_loop fuel : forall src pending m, T (Jp m Q6Out) (reboot_loop fuel src pending m) (fun m' => Jp m' Q6Out).
 Proof.
   induction fuel as [|f IH]; intros src pending m; cbn [reboot_loop]; [apply triple_halt|].
-  kna (nM_silent _ (silent_pop_stim)) as s. destruct s as [i|sc].
+  kna (nM_silent _ (silent_pop_queued)) as qd. destruct qd as [[id sc]|].
+  { eapply triple_bind; [apply T_handle_in_reboot|]. intros [|]; [rj|apply IH]. }
+  kna (nM_silent _ (silent_pop_stim)) as s. destruct s as [i|sc|].
   - assert (Hping : T (Jp m Q6Out)
               (m1 <- ping_omaha m;; mt <- update_next_update_time m1;;
                (let '(m2, t) := mt in roles <- make_wait t;; reboot_loop f src (remove_nth i pending ++ roles) m2)) (fun m' => Jp m' Q6Out)).
@@ -467,9 +481,9 @@ Proof.
       eapply triple_bind; [apply T_timer_out|]. intro. apply IH.
     + apply IH.
   - kna (nM_silent _ silent_next_ctl) as id.
-    kn (nM_quiet (AReply id AlreadyRunning) I).
-    destruct sc; [|apply IH].
-    eapply triple_bind; [apply T_ask_reboot|]. intros [|]; [rj|apply IH].
+    kn (nM_quiet (ARequest id sc) I).
+    eapply triple_bind; [apply T_handle_in_reboot|]. intros [|]; [rj|apply IH].
+  - apply IH.
 Qed.
 
 Lemma T_wait_for_reboot fuel src m : T (Jp m Q6Out) (wait_for_reboot fuel src m) (fun m' => Jp m' Q6Out).
@@ -495,7 +509,7 @@ Proof.
     krep. kn (nM_st_write (SRemove K_FINISH_TIME)). kn (nM_st_write (SRemove K_TARGET_VERSION)). kn (nM_st_write SCommit). rj. }
   intro sr'. eapply triple_bind; [apply T_update_next|]. intros [m1 t]; cbn [fst].
   eapply triple_bind; [apply T_make_wait|]. intro roles.
-  kna (nM_silent _ (silent_do_outer_select roles)) as sel.
+  eapply triple_bind with (R := fun _ => Jp m1 Q6Out); [apply (T_do_outer_select step6 roles (Jp m1 Q6Out) ign_ctl6)|]. intro sel.
   kna (nM_silent _ silent_pop_allowed) as dec.
   match goal with |- T _ (bind (emit ?a) _) _ => kn (nM_quiet a I) end.
   assert (Hneg : T (Jp m1 Q6Out) (match sel with Some (_, id) => emit (AReply id Throttled) | None => ret tt end;;; ret (m1, sr'))
@@ -504,16 +518,22 @@ Proof.
     destruct sel as [[s id]|]; [apply (Jn _ _ _ (nM_quiet (AReply id Throttled) I))|rj]. }
   assert (Hpos : forall p, T (Jp m1 Q6Out)
             (match sel with Some (_, id) => emit (AReply id Started) | None => ret tt end;;;
+             enter_check;;;
              r <- start_update_check fuel p m1;;
+             set_incheck false;;;
+             upg <- take_upgrade;;
              (let '(m0, rb) := r in
               m2 <- match rb with
-                    | RebootNeeded _ => yield_state WaitingForReboot;;; wait_for_reboot fuel match sel with Some (s, _) => s | None => ScheduledTask end m0
+                    | RebootNeeded _ => yield_state WaitingForReboot;;; wait_for_reboot fuel (if upg then OnDemand else match sel with Some (s, _) => s | None => ScheduledTask end) m0
                     | RebootNotNeeded => ret m0
                     end;;
               yield_state Idle;;; ret (m2, sr'))) (fun r => Jp (fst r) Q6Out)).
   { intro p. eapply triple_bind with (R := fun _ => Jp m1 Q6Out).
     { destruct sel as [[s id]|]; [apply (Jn _ _ _ (nM_quiet (AReply id Started) I))|rj]. }
-    intro. eapply triple_bind; [apply T_start|]. intros [m2 rb]; cbn [fst].
+    intro. eapply triple_bind with (R := fun _ => Jp m1 Q6Out); [apply (T_enter_check step6 (Jp m1 Q6Out) ign_ctl6)|]. intro.
+    eapply triple_bind; [apply T_start|]. intros [m2 rb]; cbn [fst].
+    kn (nM_silent _ (silent_set_incheck false)).
+    kna (nM_silent _ silent_take_upgrade) as upg.
     eapply triple_bind with (R := fun m' => Jp m' Q6Out).
     { destruct rb as [plan|]; [|rj]. kn (nM_yield_state WaitingForReboot I). apply T_wait_for_reboot. }
     intro m3. kn (nM_yield_state Idle I). rj. }
@@ -545,11 +565,11 @@ Proof.
   assert (HJ : Jp m Q6Out (init6 ep cup (e_store e))).
   { unfold Jp, init6, cupb, m, build. cbn [cup6 poll6 ph6_]. destruct (ctx_load (pend (e_store e))) as [sc ps]. cbn. auto. }
   destruct ep.
-  - destruct (T_run (Datatypes.S (length (e_stim e))) (4 + length (e_stim e)) m (init6 EStart cup (e_store e)) e (init6 EStart cup (e_store e))) as (q' & Hq' & _).
+  - destruct (T_run (Datatypes.S (length (e_stim e) + length (c_inject (e_cs e)))) (4 + length (e_stim e) + length (c_inject (e_cs e))) m (init6 EStart cup (e_store e)) e (init6 EStart cup (e_store e))) as (q' & Hq' & _).
     + unfold mst. rewrite Ht. reflexivity.
     + exact HJ.
     + destruct (run _ _ m e) as [r e'] eqn:E. cbn [snd] in Hq'. unfold mst in Hq'. rewrite Hq'. reflexivity.
-  - destruct (T_oneshot (4 + length (e_stim e)) m (init6 EOneshot cup (e_store e)) e (init6 EOneshot cup (e_store e))) as (q' & Hq' & _).
+  - destruct (T_oneshot (4 + length (e_stim e) + length (c_inject (e_cs e))) m (init6 EOneshot cup (e_store e)) e (init6 EOneshot cup (e_store e))) as (q' & Hq' & _).
     + unfold mst. rewrite Ht. reflexivity.
     + exact HJ.
     + destruct (oneshot _ m e) as [r e'] eqn:E. cbn [snd] in Hq'. unfold mst in Hq'. rewrite Hq'. reflexivity.
